@@ -128,6 +128,20 @@ def check_cacg(run, A):
         has_floor = _has(fl)
         n_floor += has_floor
         ok_all = ok_all and has_floor
+        # the floor is the option itself (eigenvalues already scaled to maximum one) or the option times the LARGEST eigenvalue of the same matrix:
+        # relative to any other statistic (the smallest eigenvalue, a mean) the bound `eigenvalues >= floor * max` is gone
+        for alt in unwrap_gamma(fl):
+            fa = strip_views(alt)
+            if fa.op == 'param' and fa.args[0] == 'eigenvalue_floor':
+                continue
+            okf = False
+            if fa.op == 'binop' and fa.args[0] == 'Mult':
+                u, v = strip_views(fa.args[1]), strip_views(fa.args[2])
+                if u.op == 'param' and u.args[0] == 'eigenvalue_floor':
+                    u, v = v, u
+                okf = v.op == 'param' and v.args[0] == 'eigenvalue_floor' and is_call_to(u, 'numpy.amax') and const_val(call_arg(u, 1, 'axis')) == -1
+            run.check(okf, 'R-SAN', 'cACG: a relative eigenvalue floor is relative to the largest eigenvalue', fn.loc(fa.node), '',
+                      'the floor is not eigenvalue_floor * amax(eigenvalues, axis=-1, keepdims=True)', construct=f'R-SAN::{q}::floor-relative-to-max')
         xs = strip_views(x)
         if xs.op == 'binop' and xs.args[0] == 'Div':
             d = xs.args[2]
